@@ -13,6 +13,9 @@ depends only on replicated data; structural):
         derives the merge id from the ordered pair.
  R5 K6  Transaction::commit builds the committed set from self.heads (BTreeMap by CmdId) through
         HeadSet::push only.
+ R6 K6  the braid's base state does not depend on segment boundaries: where get_fact_perspective
+        reuses a segment's end-of-segment fact index, the "no fact updates" scan that licenses it is
+        not restricted to the prefix up to `location`.
 Not decided: equality of heads/facts/hello head over all delivery histories (value-level)."""
 from rules.core import rt, pat
 
@@ -47,3 +50,27 @@ def run(F, rep, tier):
     heap = [x["ty"] for x in sadt["variants"][0]["fields"] if x["name"] == "heap"]
     rep.check(bool(heap) and "BinaryHeap" in heap[0], "StrandHeap.heap|binary-heap-of-strands", "K10 type fact",
               "braid tie-breaking is delegated to BinaryHeap<Strand> with the key-only Ord", site=None)
+    # R6 batching independence of the braid's base state
+    n = 0
+    for g in F.fns:
+        if g.name == "get_fact_perspective" and g.trait and g.trait.endswith("storage::Storage"):
+            n += 1
+            shortcut = [s for s in g.stmts() if s.rv_kind() == "agg" and s.rv[1].get("variant") == "FactIndex"
+                        and any("field:facts" in g.origins(o, through_calls=()) and "field:prior_facts" not in g.origins(o, through_calls=()) for o in s.operands())]
+            tests = [c for c in g.calls if c.is_("Iterator::all", "Iterator::any") and "field:commands" in g.origins(c.args[0], through_calls="*")]
+            if not shortcut or not tests:
+                rep.ok("K6 provenance", "%s: no end-of-segment shortcut guarded by an emptiness scan (nothing to check)" % g.path.split("::")[-3], g.site())
+                continue
+            for c in tests:
+                sl, sites = g.backward_sources(c.args[0].place.local, through_calls="*")
+                bad = []
+                for k, s in sites:
+                    if k == "call" and s.is_("Index::index", "slice::get", "Iterator::take", "Iterator::take_while"):
+                        ty = g.local_ty(s.args[1].place.local) if len(s.args) > 1 and s.args[1].place is not None else ""
+                        if s.name in ("take", "take_while") or "RangeTo" in ty or "ops::range::Range<" in ty or "ops::Range<" in ty:
+                            bad.append("%s(%s)" % (s.name, ty.split("::")[-1]))
+                rep.check(not bad, "get_fact_perspective|shortcut-scans-past-location", "K6 provenance",
+                          "the end-of-segment fact index is reused only when the scan for fact updates is not cut off at `location` (whole segment or the part after it)",
+                          "get_fact_perspective reuses the segment's final fact index although it only checked a prefix of the segment (%s): commands after `location` "
+                          "in the same segment are applied early, so the result depends on how commands were batched into segments" % ", ".join(bad), c.site())
+    rep.floor("Storage::get_fact_perspective implementations", n, 1)
